@@ -277,6 +277,15 @@ def validate(ctx, trace_files, chunk=40000, par=None):
         for tf, ch, bad in ex.map(one, jobs):
             for ln in bad:
                 rejects.append(describe(tf, ch, ln))
+            # String() of an object disagrees with its AsArray(): not a matter of the
+            # state machine (World.tla does not see it) but of the text (C10)
+            ntv = 0
+            for i, l in enumerate(ch):
+                if '"tv":' in l and ntv < 20:
+                    ntv += 1
+                    d = describe(tf, ch, i + 1)
+                    d['textview'] = d['line'].get('tv', '')
+                    rejects.append(d)
     return total, rejects
 
 
@@ -344,6 +353,8 @@ def judge(ctx, rejects, codec_of, scripts_by_id=None):
             x['k'], x['m'], x['self'], x['args'], rej['file'],
             ('panicked [%s] %s' % (x['pc'], x['pm'])) if x['p'] else ('returned %s' % json.dumps(x['r'])),
             '', canon(rej['pre'])[:300], canon(x['w'])[:300])
+        if rej.get('textview'):
+            what += ' | accepted by World.tla, but the text disagrees: ' + rej['textview']
         for o in x['w']:
             if isinstance(o, dict) and ('incoherent' in o or 'broken' in o):
                 what += ' | views disagree: %s' % (o.get('incoherent') or o.get('broken'))
